@@ -288,7 +288,7 @@ def run(ctx):
         txt = round_trip(ctx, 'hand-built', root, rs, rep)
         if txt and ctx.driver_ok and getattr(root, 'children', None):
             model_document_check(ctx, root, txt, rep)
-        if ctx.n_new() >= 3:
+        if ctx.n_new(with_input_only=True) >= 3:
             return
     # a Chow-Liu tree saved on its own
     for k in range(12 if quick else 150):
@@ -306,7 +306,7 @@ def run(ctx):
         ctx.case('clt', nontrivial_key=('clt', k), sample=dict(scope=list(clt.scope), tree=[int(t) for t in clt.tree]))
         round_trip(ctx, 'clt', clt, rs, dict(kind='c13-clt', scope=list(clt.scope), tree=[int(t) for t in clt.tree], params=np.asarray(clt.params).tolist(),
                                              root=int(clt.scope[clt.root])))
-        if ctx.n_new() >= 3:
+        if ctx.n_new(with_input_only=True) >= 3:
             return
     # models returned by the learners
     for k in range(14 if quick else 200):
@@ -318,7 +318,7 @@ def run(ctx):
             continue
         ctx.case('learned:' + name, nontrivial_key=('learned', k), sample=dict(cfg, k=k))
         round_trip(ctx, 'learned:' + name, root, rs, dict(kind='c13-learned', k=k, seed=ctx.seed, **cfg))
-        if ctx.n_new() >= 3:
+        if ctx.n_new(with_input_only=True) >= 3:
             return
     # known finding F15: the same child object listed twice under one node
     b = Bernoulli(0, 0.3)
